@@ -41,7 +41,11 @@ ASSUMPTIONS = ["test ids are mapped to numbers through a per-case table of names
                "order equals numeric order; names are non-empty, contain no line feed and have no ASCII whitespace at "
                "either end (such an id cannot be written on a line of a list file); list files are valid UTF-8",
                "custom suites' own sort_tests/filter_by_ids follow the documented protocol (FixtureSuite's sort_tests; "
-               "a filter_by_ids that rebuilds the suite from the filtered members)"]
+               "a filter_by_ids that rebuilds the suite from the filtered members - the rebuilt suite stands for the "
+               "original one and inherits its label)",
+               "grouping after filter_by_ids is observed as the chain of suite objects of the input tree that enclose "
+               "each surviving test (every suite object built from the input carries a label; unlabelled suites such "
+               "as placeholders for removed tests, and the index of a test's slot, are not looked at)"]
 EXPLANATION = ("Theorems in coq/Props/C19.v over all suite trees; correspondence: iterate_tests, filter_by_ids, "
                "sorted_tests, list_test and testtools.run.main --list/--load-list (with a generated list file) of the "
                "working tree against coq/Model/Suites.v on generated trees, a sample of them through "
